@@ -31,6 +31,9 @@ InitOf(t, inj) ==
       S0 == State0(db, t.pre.NodeSeq, t.reg, inj, MerkleGhost(db))
   IN StartRun([S0 EXCEPT !.run.no = t.no - 1, !.injrun = t.no], 0)
 
+\* what the fault-free recording run leaves behind (fault runs always start from the empty backend)
+FaultFree == RunToEnd(StartRun(State0(EmptyT, <<>>, <<1, 1, 1>>, NoInj, {}), 0), 400)
+
 \* ---- the property's predicates on the logged data ----
 NoStr(n) == CASE n = 1 -> "1" [] n = 2 -> "2" [] n = 3 -> "3" [] OTHER -> "4"
 Con(t) ==
@@ -41,18 +44,27 @@ Con(t) ==
       pend == {e \in post.JobEnd : e[1] = pj /\ e[2] # <<>>}
       hitP == /\ t.out[1] = "ok" /\ "P" \notin exe /\ pend # {}
               /\ ~\E j \in post.Job : j[1] = NoStr(t.no) \o "C"
-      ff == RunToEnd(InitOf(t, NoInj), 400)
-  IN [fk |-> FKClosed(post),
+      ff == FaultFree
+  IN [fk |-> FKClosed(TabOf(t.pre)) => FKClosed(post),
       fresh |-> (t.role = "recovery") => okfresh,
       survives |-> (t.role = "fault") => okfresh,
-      complete |-> (t.role = "fault" /\ t.out[1] = "ok") => (post = ff.db /\ t.post.NodeSeq = ff.nseq),
+      complete |-> (t.role = "fault" /\ t.out[1] = "ok") =>
+                      (t.pre.NodeSeq = <<>> /\ t.reg = <<1, 1, 1>> /\ post = ff.db /\ t.post.NodeSeq = ff.nseq),
       c03 |-> hitP => \A e \in pend : NodeTasks(e[2]) \subseteq RegHashes(t.reg),
       sem |-> t.fresh = Fresh(t.reg),
+      fkpost |-> FKClosed(post),
       hitp |-> hitP]
 
+\* a record with role "import" is a transfer (put_records into an empty repository), not a run:
+\* the destination must be exactly Imported(source)
 TInit == /\ tid \in 1..Len(Traces)
-         /\ s = InitOf(Traces[tid], Traces[tid].inj)
-         /\ PrintT("CON " \o ToJson([tid |-> tid, con |-> Con(Traces[tid])]))
+         /\ IF Traces[tid].role = "import"
+            THEN /\ s = State0(TabOf(Traces[tid].pre), Traces[tid].pre.NodeSeq, Traces[tid].reg, NoInj, {})
+                 /\ PrintT("IMP " \o ToJson([tid |-> tid,
+                                              ok |-> Imported(TabOf(Traces[tid].pre)) = TabOf(Traces[tid].post),
+                                              fk |-> FKClosed(TabOf(Traces[tid].post))]))
+            ELSE /\ s = InitOf(Traces[tid], Traces[tid].inj)
+                 /\ PrintT("CON " \o ToJson([tid |-> tid, con |-> Con(Traces[tid])]))
 
 PtOK(t, S2) ==
   S2.np > s.np =>
